@@ -281,14 +281,24 @@ func vio(r *core.Result, check, api, input, expected, got string) {
 func guard(r *core.Result, check, api, input string, f func()) (ok bool) {
 	defer func() {
 		if e := recover(); e != nil {
+			ok = false
+			if msg := fmt.Sprint(e); strings.HasPrefix(msg, "verif: seam unavailable") {
+				seamUnavailable(r, msg)
+				return
+			}
 			buf := make([]byte, 4096)
 			n := runtime.Stack(buf, false)
 			vio(r, check, api, input, "no panic", fmt.Sprintf("panic: %v\n%s", e, buf[:n]))
-			ok = false
 		}
 	}()
 	f()
 	return true
+}
+
+// seamUnavailable records that an export wrapper does not fit the edited tree (the dependent sub-check is skipped).
+func seamUnavailable(r *core.Result, msg string) {
+	r.Note("seam_unavailable", msg)
+	r.Exhaustive = false
 }
 
 func jsonUnmarshal(b []byte, v interface{}) error { return json.Unmarshal(b, v) }
@@ -346,6 +356,10 @@ func timed(r *core.Result, check, api, input string, f func()) (ok bool) {
 	select {
 	case x := <-done:
 		if x.e != nil {
+			if msg := fmt.Sprint(x.e); strings.HasPrefix(msg, "verif: seam unavailable") {
+				seamUnavailable(r, msg)
+				return false
+			}
 			vio(r, check, api, input, "no panic", fmt.Sprintf("panic: %v\n%s", x.e, x.st))
 			return false
 		}
